@@ -42,12 +42,131 @@ def split_block(out, nr, nc):
     return exp
 
 
+SRC_PRELUDE = '''
+From Coq Require Import String.
+Local Open Scope string_scope.
+Definition qq (q : Q) : Z * Z := (Qnum q, Zpos (Qden q)).
+Definition src_vec (r : pres (option val)) : nat * list (Z * Z) :=
+  match r with
+  | POk (Some (VList l)) => (0, map (fun v => match v with VNum q => qq q | VInt z => (z, 1%Z) | _ => (0%Z, 0%Z) end) l)
+  | POk _ => (6, [])
+  | PErr PValueError => (1, []) | PErr PIndexError => (2, []) | PErr PKeyError => (3, [])
+  | PErr PTypeError => (4, []) | PErr PUnbound => (5, [])
+  end.
+Definition src_gv (shape : list nat) (v : Format.vals) (d : Q) :=
+  src_vec (run_var src_get_values [("shape", VList (map vnat shape)); ("values", embVals v); ("default_value", VNum d)] "return").
+Definition src_sv (nr nc : nat) (vr vc : Format.vals) (d : Q) :=
+  src_vec (run_var src_stack_values [("shape", VList [vnat nr; vnat nc]); ("values_row", embVals vr); ("values_col", embVals vc);
+                                     ("default_value", VNum d)] "return").
+Definition src_av (bip : bool) (nr nc : nat) (v vr vc : Format.vals) (d : Q) :=
+  src_vec (run_var src_adjacency_values_core [("bipartite", VBool bip); ("input_matrix.shape", VList [vnat nr; vnat nc]);
+                                              ("values", embVals v); ("values_row", embVals vr); ("values_col", embVals vc);
+                                              ("default_value", VNum d)] "values").
+'''
+SRC_ERR = {1: 'ValueError', 2: 'IndexError', 3: 'KeyError'}
+
+
+def _cvals(x):
+    from ..common import clist, cq
+    if x is None:
+        return 'Format.VNone'
+    if 'dict' in x:
+        return '(Format.VDict %s)' % clist(x['dict'], lambda e: '(%d, %s)' % (e[0], cq(e[1])))
+    return '(Format.VArr %s)' % clist(x.get('array', x.get('list')), cq)
+
+
+def _rand_vals(rng, n, allow_none=True):
+    from fractions import Fraction
+    form = rng.choice(['none', 'array', 'list', 'dict', 'dict', 'dict'] if allow_none else ['array', 'list', 'dict', 'dict'])
+    val = lambda: rng.choice([0, 1, 2, 5, -1, -1, Fraction(1, 2), Fraction(3, 4), 7])
+    if form == 'none':
+        return None
+    if form in ('array', 'list'):
+        k = n if rng.random() < 0.85 else rng.choice([max(0, n - 1), n + 1])       # wrong lengths: ValueError
+        return {form: [val() for _ in range(k)]}
+    keys = rng.sample(range(n), rng.randint(0 if rng.random() < 0.1 else 1, n)) if n else []
+    if keys and rng.random() < 0.1:
+        keys[rng.randrange(len(keys))] = n + rng.randint(0, 2)                     # a key past the end: IndexError
+    rng.shuffle(keys)                                                              # insertion order is not node order
+    return {'dict': [[k, val()] for k in keys]}
+
+
+def source_terms(ctx, impl):
+    """The statements regenerated from utils/values.py and utils/format.py (Gen/PyValues.v; theorems source_*_is_model of
+    Props/C03.v) run inside Coq on the seed arguments the implementation is called with: same vector, same error kind."""
+    from fractions import Fraction
+    from ..common import safe_coq_eval, cq, cbool
+    rng = ctx.rng
+    quick = ctx.tier == 'quick'
+    jz = lambda x: None if x is None else {k: ([[a, float(b)] for a, b in v] if k == 'dict' else [float(t) for t in v]) for k, v in x.items()}
+    cs, exprs = [], []
+    for _ in range(150 if quick else 1500):
+        kind = rng.choice(['get_values', 'stack_values', 'stack_values', 'adjacency_values', 'adjacency_values'])
+        nr, nc = rng.randint(1, 5), rng.randint(1, 5)
+        d = rng.choice([-1, 0, -1, Fraction(1, 2)])
+        if kind == 'get_values':
+            shape = [nr] if rng.random() < 0.5 else [nr, nc]
+            v = _rand_vals(rng, nr)
+            cs.append(dict(kind=kind, shape=shape, values=jz(v), default=float(d)))
+            exprs.append('src_gv [%s] %s %s' % ('; '.join(str(x) for x in shape), _cvals(v), cq(d)))
+        elif kind == 'stack_values':
+            vr, vc = _rand_vals(rng, nr), _rand_vals(rng, nc)
+            cs.append(dict(kind=kind, shape=[nr, nc], values_row=jz(vr), values_col=jz(vc), default=float(d)))
+            exprs.append('src_sv %d %d %s %s %s' % (nr, nc, _cvals(vr), _cvals(vc), cq(d)))
+        else:
+            if rng.random() < 0.4:
+                nc = nr
+            which = rng.choice(['values', 'rows', 'cols', 'both', 'none'])
+            v = _rand_vals(rng, nr, allow_none=False) if which == 'values' else None
+            vr = _rand_vals(rng, nr, allow_none=False) if which in ('rows', 'both') else None
+            vc = _rand_vals(rng, nc, allow_none=False) if which in ('cols', 'both') else None
+            fb = rng.random() < 0.3
+            cs.append(dict(kind=kind, shape=[nr, nc], values=jz(v), values_row=jz(vr), values_col=jz(vc), default=float(d),
+                           force_bipartite=fb))
+            # the decision of get_adjacency on an all-ones matrix: bipartite iff forced, or seeds on a side, or not square
+            bip = fb or vr is not None or vc is not None or nr != nc
+            exprs.append('src_av %s %d %d %s %s %s %s' % (cbool(bip), nr, nc, _cvals(v), _cvals(vr), _cvals(vc), cq(d)))
+            cs[-1]['expect_bipartite'] = bip
+    vals = safe_coq_eval(ctx, 'c03src', ['Base.Util', 'Model.Bfs', 'Model.Format', 'Model.PyImp', 'Gen.PyValues', 'Proofs.PyCutsProofs',
+                                         'Proofs.PyValuesProofs'], exprs, prelude=SRC_PRELUDE, shard=100)
+    if vals is None:
+        return
+    n_src = 0
+    for c, sv in zip(cs, vals):
+        r = impl.call('c03', 'values', c, timeout=30)
+        ctx.traces += 1
+        n_src += 1
+        ctx.count('source_term:' + c['kind'], ('src', repr(sorted(c.items(), key=str))), True)
+        code, vec = sv[0], [Fraction(a, b) if b else None for a, b in sv[1]]
+        site = {'get_values': 'get_values', 'stack_values': 'stack_values', 'adjacency_values': 'get_adjacency_values'}[c['kind']]
+        if code in (4, 5, 6):
+            if len(ctx.proof_broken) < 12:
+                ctx.proof_broken.append('the statements regenerated from %s do not run under the semantics of Model/PyImp.v (code %d) on %r'
+                                        % (site, code, c))
+            continue
+        if 'ok' in r:
+            got = r['ok']['values'] if isinstance(r['ok'], dict) else r['ok']
+            if isinstance(r['ok'], dict) and r['ok']['bipartite'] != c['expect_bipartite']:
+                continue            # the harness mis-predicted get_adjacency's decision (not the subject here)
+            if code != 0 or [float(x) for x in vec] != got:
+                ctx.violation(site, 'the implementation differs from the statements regenerated from its own source (run under the '
+                              'semantics of Model/PyImp.v)', case=c, expected=[float(x) for x in vec] if code == 0 else SRC_ERR.get(code),
+                              observed=r, defect='source_term_mismatch', entry=site, kind='source_term')
+        elif 'err' in r:
+            if code == 0 or SRC_ERR.get(code) != r['err']:
+                ctx.violation(site, 'the implementation raises where the statements regenerated from its own source return (or raise '
+                              'another error)', case=c, expected=[float(x) for x in vec] if code == 0 else SRC_ERR.get(code), observed=r,
+                              defect='source_term_mismatch', entry=site, kind='source_term')
+    ctx.extra['source_terms_evaluated'] = ctx.extra.get('source_terms_evaluated', 0) + n_src
+
+
 def run(ctx, scratch):
     rng = ctx.rng
     quick = ctx.tier == 'quick'
     nmax = 9 if quick else 18
     reps = 24 if quick else 150
     with Impl(scratch) as impl:
+        source_terms(ctx, impl)
         desc = impl.call('registry', 'describe', None, timeout=120)['ok']
         names = sorted(n for n, d in desc.items() if 'bip' in d['kinds'] and n not in EXCLUDE and d['deterministic'])
         ctx.extra['bipartite_entry_points'] = names
